@@ -536,6 +536,11 @@ func (s *IndexedState) rem(ctx *Context, id string) (bool, error) {
 
 func (s *IndexedState) deleteDependencies(ctx *Context, id string) error {
 	Log(DEBUG, ctx, "IndexedState.deleteDependencies", "location", s.Name, "id", id)
+	if IsVariable(id) {
+		// In the pattern below, such an id would be a variable,
+		// and everything that has a 'deleteWith' a dependent.
+		return nil
+	}
 	srs, err := s.search(ctx, Map{KW_DeleteWith: []string{id}})
 	if nil != err {
 		return err
